@@ -179,3 +179,253 @@ Example C14_guard_witness :
   set_global_key (deep 11%nat) (repeat (KI 0) 11) (Leaf SNone) = Raise E_Recursion /\
   exists t', set_global_key (deep 10%nat) (repeat (KI 0) 10) (Leaf SNone) = Ok t'.
 Proof. split; [vm_compute; reflexivity | eexists; vm_compute; reflexivity]. Qed.
+
+(* ================================================================================================== *)
+(* added from Properties/C14_add.v (2026-10-01)                                              *)
+(* ================================================================================================== *)
+(* C14 (addition)  The scope as a READ OPTION: DictReader.read(.., scope=..) on the workflow model Parse.read_opts. *)
+From Coq Require Import String.   (* string literals of the examples; imported first so the list names win *)
+From Coq Require Import NArith ZArith List Bool.
+From DictIO Require Import Chars Str Value Scalar KeyPath SDict Reader Parse TreeSpec WorkflowProofs.
+Import ListNotations.
+
+Module C14_ro_ex.
+  (* a native source: nested dicts, an INT key that leads to a dict, a comment *)
+  Definition root := of_string "/r/d.dict".
+  Definition text := of_string "// top
+a { 7 { z 0; c 1; } x 2; }
+q 3;
+".
+  Definition fs : fsys := [(root, FNative text)].
+  Definition scope := [SStr (of_string "a"); SInt 7].
+  (* a JSON source: keys with a quote, brackets, blanks, double quotes; a negative int key; a key that
+     _remove_include_keys takes for an include (INCLUDE + digit) inside the sub-dict *)
+  Definition jroot := of_string "/r/d.json".
+  Definition k1 := of_string "it's [k]".  Definition k2 := of_string "x ""y""".
+  Definition js : list (key * tree) :=
+    [(KS k1, Dict [(KS k2, Dict [(KS (of_string "INCLUDE1"), Leaf (SInt 5)); (KI (-3), Leaf (SStr (of_string "v")));
+                                 (KS (of_string "b"), Leaf (SInt 1))]);
+                   (KS (of_string "w"), Leaf (SInt 0))]);
+     (KS (of_string "q"), Leaf (SInt 3))].
+  Definition jfs : fsys := [(jroot, FJson js)].
+  Definition jscope := [SStr k1; SStr k2].
+  (* a top-level key that _remove_include_keys drops *)
+  Definition mroot := of_string "/r/m.dict".
+  Definition mfs : fsys := [(mroot, FNative (of_string "INCLUDE1 { a 1; }
+b 2;
+"))].
+End C14_ro_ex.
+
+(* includes on, order off: the scoped read is EXACTLY SDict.reduce_scope applied to the result of the unscoped read
+   (scope_sd: clear, update with the sub-dict, side tables kept, clean-up), with the same counter -- or the reader exits
+   (sys.exit(1) = Raise E_Exit) when the path does not lead to a dict.  No side condition; keys of any kind. *)
+Theorem C14_scope_read_option_exact : forall fs root com scope sk c s k,
+  read_opts fs root true false com [] c = Some (Ok (s, k)) -> scope_keys scope = Some sk -> sk <> [] ->
+  read_opts fs root true false com scope c =
+    if key_exists (Dict (sd_data s)) sk then Some (Ok (scope_sd s sk, k)) else Some (Raise E_Exit).
+Proof. exact scope_read_option_exact. Qed.
+Print Assumptions C14_scope_read_option_exact.
+
+Example C14_scope_read_option_exact_nonvacuous :
+  exists s k, read_opts C14_ro_ex.fs C14_ro_ex.root true false true [] 0 = Some (Ok (s, k)) /\
+    scope_keys C14_ro_ex.scope = Some [KS (of_string "a"); KI 7] /\
+    key_exists (Dict (sd_data s)) [KS (of_string "a"); KI 7] = true /\
+    read_opts C14_ro_ex.fs C14_ro_ex.root true false true C14_ro_ex.scope 0 = Some (Ok (scope_sd s [KS (of_string "a"); KI 7], k)) /\
+    sd_data (scope_sd s [KS (of_string "a"); KI 7]) = [(KS (of_string "z"), Leaf (SInt 0)); (KS (of_string "c"), Leaf (SInt 1))] /\
+    sd_lc (scope_sd s [KS (of_string "a"); KI 7]) = sd_lc s /\ sd_lc s <> [] /\
+    (* a path to a leaf, a missing path: the reader exits *)
+    read_opts C14_ro_ex.fs C14_ro_ex.root true false true [SStr (of_string "a"); SStr (of_string "x")] 0 = Some (Raise E_Exit) /\
+    read_opts C14_ro_ex.fs C14_ro_ex.root true false true [SStr (of_string "a"); SInt 8] 0 = Some (Raise E_Exit).
+Proof.
+  destruct (read_opts C14_ro_ex.fs C14_ro_ex.root true false true [] 0) as [[[s k]|e]|] eqn:E;
+    [|vm_compute in E; discriminate E|vm_compute in E; discriminate E].
+  exists s, k. split; [reflexivity|].
+  assert (Hk : scope_keys C14_ro_ex.scope = Some [KS (of_string "a"); KI 7]) by reflexivity.
+  pose proof (C14_scope_read_option_exact _ _ _ _ _ _ _ _ E Hk ltac:(discriminate)) as T.
+  pose proof (C14_scope_read_option_exact _ _ _ [SStr (of_string "a"); SStr (of_string "x")] _ _ _ _ E eq_refl ltac:(discriminate)) as T2.
+  pose proof (C14_scope_read_option_exact _ _ _ [SStr (of_string "a"); SInt 8] _ _ _ _ E eq_refl ltac:(discriminate)) as T3.
+  set (p := [KS (of_string "a"); KI 7]) in *.
+  assert (Hx : key_exists (Dict (sd_data s)) p = true) by (vm_compute in E; injection E as <- _; vm_compute; reflexivity).
+  assert (Hx2 : key_exists (Dict (sd_data s)) [KS (of_string "a"); KS (of_string "x")] = false)
+    by (vm_compute in E; injection E as <- _; vm_compute; reflexivity).
+  assert (Hx3 : key_exists (Dict (sd_data s)) [KS (of_string "a"); KI 8] = false)
+    by (vm_compute in E; injection E as <- _; vm_compute; reflexivity).
+  assert (D : sd_data (scope_sd s p) = [(KS (of_string "z"), Leaf (SInt 0)); (KS (of_string "c"), Leaf (SInt 1))])
+    by (vm_compute in E; injection E as <- _; vm_compute; reflexivity).
+  assert (L : sd_lc (scope_sd s p) = sd_lc s) by (vm_compute in E; injection E as <- _; vm_compute; reflexivity).
+  assert (L2 : sd_lc s <> []) by (vm_compute in E; injection E as <- _; vm_compute; discriminate).
+  cbn [scope_keys scalar_to_key] in T2, T3. rewrite Hx in T. rewrite Hx2 in T2. rewrite Hx3 in T3.
+  repeat split; assumption.
+Qed.
+
+(* any flags, no side condition: the scoped and the unscoped read go through the same stages -- one intermediate dict s1
+   (parse, include merge, expression evaluation: read_core) and one counter; the unscoped read finishes s1 (order, drop
+   top-level include keys: finish), the scoped read finishes SDict.reduce_scope of s1, or exits *)
+Theorem C14_scope_read_option_stages : forall fs root inc order com scope sk c s k,
+  scope_keys scope = Some sk -> read_opts fs root inc order com [] c = Some (Ok (s, k)) ->
+  exists s1, read_core fs root inc com c = Some (Ok (s1, k)) /\ s = finish inc order s1 /\
+    read_opts fs root inc order com scope c =
+      match scope_stage sk s1 with Raise e => Some (Raise e) | Ok s2 => Some (Ok (finish inc order s2, k)) end.
+Proof. exact read_opts_scope_stages. Qed.
+Print Assumptions C14_scope_read_option_stages.
+
+(* non-vacuity: includes off, order on, a comment INSIDE the sub-dict (not covered by plain_keys below): the scoped read
+   is the finished reduce_scope of the intermediate dict *)
+Example C14_scope_read_option_stages_nonvacuous :
+  let fs := [(C14_ro_ex.root, FNative (of_string "a { z 0; // inside
+ c 1; }
+"))] in
+  exists s k s1, read_opts fs C14_ro_ex.root false true true [] 0 = Some (Ok (s, k)) /\
+    read_core fs C14_ro_ex.root false true 0 = Some (Ok (s1, k)) /\ s = finish false true s1 /\
+    scope_stage [KS (of_string "a")] s1 = Ok (scope_sd s1 [KS (of_string "a")]) /\
+    read_opts fs C14_ro_ex.root false true true [SStr (of_string "a")] 0 = Some (Ok (finish false true (scope_sd s1 [KS (of_string "a")]), k)) /\
+    map fst (sd_data (finish false true (scope_sd s1 [KS (of_string "a")]))) =
+      [KS (of_string "LINECOMMENT000001"); KS (of_string "c"); KS (of_string "z")] /\
+    get_dpath (Dict (sd_data s)) [KS (of_string "a")] = Some (Dict (sd_data (finish false true (scope_sd s1 [KS (of_string "a")])))).
+Proof.
+  intros fs.
+  destruct (read_opts fs C14_ro_ex.root false true true [] 0) as [[[s k]|e]|] eqn:E;
+    [|vm_compute in E; discriminate E|vm_compute in E; discriminate E].
+  destruct (C14_scope_read_option_stages fs C14_ro_ex.root false true true [SStr (of_string "a")] _ 0%Z s k eq_refl E)
+    as (s1 & R & Es & T).
+  exists s, k, s1. split; [reflexivity|]. split; [exact R|]. split; [exact Es|].
+  assert (St : scope_stage [KS (of_string "a")] s1 = Ok (scope_sd s1 [KS (of_string "a")])).
+  { vm_compute in R. injection R as <- _. vm_compute. reflexivity. }
+  rewrite St in T. split; [exact St|]. split; [exact T|].
+  split; [vm_compute in R; injection R as <- _; vm_compute; reflexivity|].
+  rewrite Es. vm_compute in R. injection R as <- _. vm_compute. reflexivity.
+Qed.
+
+(* any flags: relative to the unscoped read WITH THE SAME FLAGS.  When the path k0 :: sk leads to a dict [sub] in the
+   unscoped result (get_dpath: through dicts only, keys compared as data), the scoped read returns precisely [sub] as
+   data -- for includes off after the top-level include-key filter, which acts on the new top level (see the finding
+   below) --, the side tables and the counter of the unscoped read; otherwise the reader exits.
+   Side conditions: (a) includes off: the first scope key is not itself a key that _remove_include_keys drops (finding
+   C14_scope_read_option_marked_finding); (b) [sub] is well formed and holds no comment / include placeholder KEY at a
+   level reachable through dicts (plain_keys), so that the clean-up after update is the identity: the general case is
+   the exact theorem above with scope_sd. *)
+Theorem C14_scope_read_option : forall fs root inc order com scope k0 sk c s k,
+  read_opts fs root inc order com [] c = Some (Ok (s, k)) -> scope_keys scope = Some (k0 :: sk) ->
+  (inc = false -> key_unmarked k0 = true) ->
+  match get_dpath (Dict (sd_data s)) (k0 :: sk) with
+  | Some (Dict sub) =>
+      wf (Dict sub) = true -> plain_keys (Dict sub) = true ->
+      read_opts fs root inc order com scope c =
+        Some (Ok (mkSD (if inc then sub else remove_include_keys sub) (sd_lc s) (sd_bc s) (sd_inc s) (sd_expr s), k))
+  | _ => read_opts fs root inc order com scope c = Some (Raise E_Exit)
+  end.
+Proof. exact scope_read_option. Qed.
+Print Assumptions C14_scope_read_option.
+
+(* non-vacuity 1: native source, includes on, order on, comments on; scope [a; 7] with the int key 7 *)
+Example C14_scope_read_option_nonvacuous :
+  exists s k sub,
+    read_opts C14_ro_ex.fs C14_ro_ex.root true true true [] 0 = Some (Ok (s, k)) /\
+    get_dpath (Dict (sd_data s)) [KS (of_string "a"); KI 7] = Some (Dict sub) /\
+    sub = [(KS (of_string "c"), Leaf (SInt 1)); (KS (of_string "z"), Leaf (SInt 0))] /\
+    wf (Dict sub) = true /\ plain_keys (Dict sub) = true /\
+    read_opts C14_ro_ex.fs C14_ro_ex.root true true true C14_ro_ex.scope 0 =
+      Some (Ok (mkSD sub (sd_lc s) (sd_bc s) (sd_inc s) (sd_expr s), k)) /\
+    (* paths that do not lead to a dict *)
+    read_opts C14_ro_ex.fs C14_ro_ex.root true true true [SStr (of_string "a"); SStr (of_string "x")] 0 = Some (Raise E_Exit) /\
+    read_opts C14_ro_ex.fs C14_ro_ex.root true true true [SStr (of_string "b")] 0 = Some (Raise E_Exit).
+Proof.
+  destruct (read_opts C14_ro_ex.fs C14_ro_ex.root true true true [] 0) as [[[s k]|e]|] eqn:E;
+    [|vm_compute in E; discriminate E|vm_compute in E; discriminate E].
+  pose proof (C14_scope_read_option _ _ _ _ _ C14_ro_ex.scope _ _ _ _ _ E eq_refl ltac:(discriminate)) as T.
+  pose proof (C14_scope_read_option _ _ _ _ _ [SStr (of_string "a"); SStr (of_string "x")] _ _ _ _ _ E eq_refl ltac:(discriminate)) as T2.
+  pose proof (C14_scope_read_option _ _ _ _ _ [SStr (of_string "b")] _ _ _ _ _ E eq_refl ltac:(discriminate)) as T3.
+  set (sub := [(KS (of_string "c"), Leaf (SInt 1)); (KS (of_string "z"), Leaf (SInt 0))]).
+  assert (P : get_dpath (Dict (sd_data s)) [KS (of_string "a"); KI 7] = Some (Dict sub))
+    by (vm_compute in E; injection E as <- _; vm_compute; reflexivity).
+  assert (P2 : get_dpath (Dict (sd_data s)) [KS (of_string "a"); KS (of_string "x")] = Some (Leaf (SInt 2)))
+    by (vm_compute in E; injection E as <- _; vm_compute; reflexivity).
+  assert (P3 : get_dpath (Dict (sd_data s)) [KS (of_string "b")] = None)
+    by (vm_compute in E; injection E as <- _; vm_compute; reflexivity).
+  rewrite P in T. rewrite P2 in T2. rewrite P3 in T3.
+  exists s, k, sub. repeat split; try reflexivity; try assumption.
+  apply T; reflexivity.
+Qed.
+
+(* non-vacuity 2: JSON source, includes OFF, order on; keys with quotes, brackets, blanks; a negative int key inside.
+   The sub-dict of the unscoped read still holds the key INCLUDE1 (the include-key filter is a top-level filter); the
+   scoped read has made the sub-dict the top level and drops it: the filter and the scope reduction do not commute *)
+Example C14_scope_read_option_json_nonvacuous :
+  exists s k sub,
+    read_opts C14_ro_ex.jfs C14_ro_ex.jroot false true true [] 0 = Some (Ok (s, k)) /\
+    get_dpath (Dict (sd_data s)) [KS C14_ro_ex.k1; KS C14_ro_ex.k2] = Some (Dict sub) /\
+    sub = [(KI (-3), Leaf (SStr (of_string "v"))); (KS (of_string "INCLUDE1"), Leaf (SInt 5)); (KS (of_string "b"), Leaf (SInt 1))] /\
+    key_unmarked (KS C14_ro_ex.k1) = true /\ wf (Dict sub) = true /\ plain_keys (Dict sub) = true /\
+    read_opts C14_ro_ex.jfs C14_ro_ex.jroot false true true C14_ro_ex.jscope 0 =
+      Some (Ok (mkSD (remove_include_keys sub) (sd_lc s) (sd_bc s) (sd_inc s) (sd_expr s), k)) /\
+    remove_include_keys sub = [(KI (-3), Leaf (SStr (of_string "v"))); (KS (of_string "b"), Leaf (SInt 1))].
+Proof.
+  destruct (read_opts C14_ro_ex.jfs C14_ro_ex.jroot false true true [] 0) as [[[s k]|e]|] eqn:E;
+    [|vm_compute in E; discriminate E|vm_compute in E; discriminate E].
+  pose proof (C14_scope_read_option _ _ _ _ _ C14_ro_ex.jscope _ _ _ _ _ E eq_refl ltac:(reflexivity)) as T.
+  set (sub := [(KI (-3), Leaf (SStr (of_string "v"))); (KS (of_string "INCLUDE1"), Leaf (SInt 5)); (KS (of_string "b"), Leaf (SInt 1))]).
+  assert (P : get_dpath (Dict (sd_data s)) [KS C14_ro_ex.k1; KS C14_ro_ex.k2] = Some (Dict sub))
+    by (vm_compute in E; injection E as <- _; vm_compute; reflexivity).
+  rewrite P in T.
+  exists s, k, sub. repeat split; try reflexivity; try assumption.
+  apply T; reflexivity.
+Qed.
+
+(* order off: condition (b) can be replaced by the weaker update_stable -- SDict.update of the emptied dict with [sub],
+   clean-up included, gives back [sub] and the side tables (decided by computation on closed terms).  This covers
+   sub-dicts that hold comment / include placeholder keys *)
+Theorem C14_scope_read_option_unordered : forall fs root inc com scope k0 sk c s k,
+  read_opts fs root inc false com [] c = Some (Ok (s, k)) -> scope_keys scope = Some (k0 :: sk) ->
+  (inc = false -> key_unmarked k0 = true) ->
+  match get_dpath (Dict (sd_data s)) (k0 :: sk) with
+  | Some (Dict sub) =>
+      update_stable sub s ->
+      read_opts fs root inc false com scope c =
+        Some (Ok (mkSD (if inc then sub else remove_include_keys sub) (sd_lc s) (sd_bc s) (sd_inc s) (sd_expr s), k))
+  | _ => read_opts fs root inc false com scope c = Some (Raise E_Exit)
+  end.
+Proof. exact scope_read_option_unordered. Qed.
+Print Assumptions C14_scope_read_option_unordered.
+
+(* non-vacuity: two comments (one of them a block comment) inside the sub-dict a.b; includes off *)
+Example C14_scope_read_option_unordered_nonvacuous :
+  let fs := [(C14_ro_ex.root, FNative (of_string "a { b { z 0; // inside
+ /* block */ 7 seven; } }
+q 1;
+"))] in
+  exists s k sub,
+    read_opts fs C14_ro_ex.root false false true [] 0 = Some (Ok (s, k)) /\
+    get_dpath (Dict (sd_data s)) [KS (of_string "a"); KS (of_string "b")] = Some (Dict sub) /\
+    map fst sub = [KS (of_string "z"); KS (of_string "LINECOMMENT000001"); KS (of_string "BLOCKCOMMENT000000"); KI 7] /\
+    plain_keys (Dict sub) = false /\ update_stable sub s /\
+    read_opts fs C14_ro_ex.root false false true [SStr (of_string "a"); SStr (of_string "b")] 0 =
+      Some (Ok (mkSD (remove_include_keys sub) (sd_lc s) (sd_bc s) (sd_inc s) (sd_expr s), k)) /\
+    remove_include_keys sub = sub.
+Proof.
+  intros fs.
+  destruct (read_opts fs C14_ro_ex.root false false true [] 0) as [[[s k]|e]|] eqn:E;
+    [|vm_compute in E; discriminate E|vm_compute in E; discriminate E].
+  pose proof (C14_scope_read_option_unordered _ _ _ _ [SStr (of_string "a"); SStr (of_string "b")] _ _ _ _ _ E eq_refl ltac:(reflexivity)) as T.
+  destruct (get_dpath (Dict (sd_data s)) [KS (of_string "a"); KS (of_string "b")]) as [[v|sub|ts]|] eqn:P;
+    try (vm_compute in E; injection E as <- _; vm_compute in P; discriminate P).
+  assert (K : map fst sub = [KS (of_string "z"); KS (of_string "LINECOMMENT000001"); KS (of_string "BLOCKCOMMENT000000"); KI 7])
+    by (vm_compute in E; injection E as <- _; vm_compute in P; injection P as <-; reflexivity).
+  assert (N : plain_keys (Dict sub) = false)
+    by (vm_compute in E; injection E as <- _; vm_compute in P; injection P as <-; vm_compute; reflexivity).
+  assert (U : update_stable sub s)
+    by (vm_compute in E; injection E as <- _; vm_compute in P; injection P as <-; vm_compute; reflexivity).
+  assert (R : remove_include_keys sub = sub)
+    by (vm_compute in E; injection E as <- _; vm_compute in P; injection P as <-; vm_compute; reflexivity).
+  exists s, k, sub. repeat split; try assumption; try reflexivity. exact (T U).
+Qed.
+
+(* the side condition (a): with includes off, a first scope key of the form INCLUDE<digit> is found by the scoped read
+   (the scope is reduced before the include keys are dropped), although the unscoped read no longer shows it *)
+Example C14_scope_read_option_marked_finding :
+  exists s k s',
+    read_opts C14_ro_ex.mfs C14_ro_ex.mroot false false true [] 0 = Some (Ok (s, k)) /\
+    key_unmarked (KS (of_string "INCLUDE1")) = false /\
+    get_dpath (Dict (sd_data s)) [KS (of_string "INCLUDE1")] = None /\
+    read_opts C14_ro_ex.mfs C14_ro_ex.mroot false false true [SStr (of_string "INCLUDE1")] 0 = Some (Ok (s', k)) /\
+    sd_data s' = [(KS (of_string "a"), Leaf (SInt 1))].
+Proof. eexists; eexists; eexists. vm_compute. repeat split; reflexivity. Qed.
